@@ -38,6 +38,14 @@ PROPS = {
                      "printed by the real Export.MarshalJSON and re-imported; 60% byte strings offered to ActionImport: real documents mutated 1-2 "
                      "times (truncation at any byte, byte flips, key replacement incl. case variants, type swaps, extra / duplicate keys, trailing "
                      "garbage, fragments, null elements, wrapping); non-trivial = a round trip with content or a mutated document that is still accepted"),
+    "C14": dict(streams=[dict(harness="cache", model="cache", oracle=None, quick=600, thorough=40000,
+                             oracle_py=lambda f, impl: [("panic", b"")] if impl and impl[0] == b"panic" else [],
+                             nontrivial=lambda f, impl: impl.count(b";") >= 2)],
+                tie="Model/Cache.v (step: File / Load / LoadE / WriteE / Action.Cache) <-> real Action.Cache at five call sites on a scratch XDG_CACHE_HOME",
+                rule="cases = histories of 3-12 operations: cached invocations at 3 call sites with 0-2 keys (values incl. the separator bytes, keys "
+                     "failing, keys changing as a side effect), timeouts 1h/2h/24h/negative, results with and without messages; clock advanced by "
+                     "back-dating every cache file (never within a second of a timeout boundary); foreign content planted under existing names; "
+                     "entries removed.  Every invocation's (real?, completion) is compared with the model; non-trivial = at least two invocations"),
 }
 
 TRUSTED = ["Go harness stream(s) and extracted oracle of this property (see rule)"]
